@@ -276,6 +276,35 @@ def build():
     one(r"Ok\(\(stream,\s*addr\)\)\s+if\s+!self\.at_connection_limit\(\)\s*=>\s*\{\s*self\.spawn_connection_handler\(stream,\s*addr\)\s*;\s*\}\s*Ok\(_\)\s*=>\s*\{\s*warn!", st,
         "an accepted connection at the limit is dropped")
     one(r"accept_res\s*=\s*self\.accept\(\),\s*if\s+self\.accepting_connections\(\)", st, "accept only while accepting_connections()")
+    # ---- the size hint is shared between the clones of a request: what Edns negotiates is what Mandatory truncates to
+    ms = strip_comments(read("src/net/server/message.rs"))
+    one(r"#\[derive\(Clone,\s*Debug,\s*Default\)\]\s*pub\s+struct\s+UdpTransportContext\s*\{\s*max_response_size_hint:\s*Arc<Mutex<Option<u16>>>\s*,?\s*\}", ms,
+        "UdpTransportContext: derive(Clone) over Arc<Mutex<Option<u16>>>")
+    if re.search(r"impl\s+Clone\s+for\s+UdpTransportContext", ms):
+        raise GenError("UdpTransportContext has a hand-written Clone")
+    one(r"pub\s+fn\s+set_max_response_size_hint\(\s*&self,\s*max_response_size_hint:\s*Option<u16>,?\s*\)\s*\{\s*\*self\.max_response_size_hint\.lock\(\)\.unwrap\(\)\s*=\s*max_response_size_hint\s*;\s*\}", ms,
+        "set_max_response_size_hint writes through the shared cell")
+    one(r"pub\s+fn\s+max_response_size_hint\(&self\)\s*->\s*Option<u16>\s*\{\s*\*self\.max_response_size_hint\.lock\(\)\.unwrap\(\)\s*\}", ms, "max_response_size_hint reads the shared cell")
+    one(r"transport_specific:\s*self\.transport_specific\.clone\(\)\s*,", ms, "Request::clone clones the transport context")
+    one(r"transport_specific:\s*self\.transport_specific\s*,", ms, "Request::with_new_metadata keeps the transport context")
+    one(r"#\[derive\(Debug,\s*Clone\)\]\s*pub\s+enum\s+TransportSpecificContext", ms, "TransportSpecificContext derives Clone")
+    mcall = fn_body(man, "call", after="impl<RequestOctets, NextSvc, RequestMeta> Service<RequestOctets, RequestMeta>")
+    one(r"let\s+svc_call_fut\s*=\s*self\.next_svc\.call\(request\.clone\(\)\)\s*;\s*let\s+map\s*=\s*PostprocessingStream::new\(\s*svc_call_fut,\s*request,", mcall,
+        "mandatory call: a clone goes to the inner service, the original to postprocess")
+    defs.append(("hint_shared_between_clones", "bool", "true"))
+    # ---- accept loop: an error reported by poll_accept() (or by the accepted stream's future)
+    # belongs to one connection attempt and must not end run_until_error()
+    rue = fn_body(st, "run_until_error")
+    one(r"accept_res\s*=\s*self\.accept\(\),\s*if\s+self\.accepting_connections\(\)\s*=>\s*\{\s*match\s+accept_res\s*\{\s*"
+        r"Ok\(\(stream,\s*addr\)\)\s+if\s+!self\.at_connection_limit\(\)\s*=>\s*\{\s*self\.spawn_connection_handler\(stream,\s*addr\)\s*;\s*\}\s*"
+        r"Ok\(_\)\s*=>\s*\{\s*warn!\([^;]*\)\s*;\s*\}\s*"
+        r"Err\(err\)\s*=>\s*\{\s*error!\([^;]*\)\s*;\s*\}\s*\}\s*\}", rue,
+        "run_until_error: the accept arm logs an accept error and carries on (exactly three arms, no guard on Err)")
+    if len(re.findall(r"\breturn\b", rue)) != 0 or len(re.findall(r"\?\s*;", rue)) != 1 or len(re.findall(r"\bbreak\b", rue)) != 0:
+        raise GenError("run_until_error: an exit from the accept loop other than process_server_command(..)?")
+    sch = fn_body(st, "spawn_connection_handler")
+    one(r"tokio::spawn\(async\s+move\s*\{.*?if\s+let\s+Ok\(mut\s+stream\)\s*=\s*stream\.await\s*\{", sch, "a failing stream future only ends its own task")
+    defs.append(("accept_error_stops_server", "bool", "false"))
     # full response queue: the same response is retried after yielding; no drop, no bounded wait
     enq = fn_body(cn, "do_enqueue_response")
     one(r"loop\s*\{\s*match\s+self\.result_q_tx\.try_send\(response\)\s*\{", enq, "do_enqueue_response: loop { match try_send(response)")
